@@ -1049,7 +1049,7 @@ pub fn huge_length_scenario(rep: &mut Report) {
         // an entry behind the one that will be resized: a late failure must not have moved it
         let _ = apply_op(buf, &Op::Alloc { t: 2, len: 5, allow: false });
         let _ = apply_op(buf, &Op::Write { t: 2, rep: 0, seed: 9 });
-        let snap = |b: &[u8]| (b[..4096].to_vec(), b[BIG - 4096..].to_vec());
+        let snap = |b: &[u8]| (b[..4096].to_vec(), b[BIG - 8192..].to_vec());
         let ops: Vec<(&str, Option<Op>)> = vec![
             ("realloc", Some(Op::Realloc { t: 0, len: 1usize << 32, rep: 0 })),
             ("realloc-with-repetition", Some(Op::Realloc { t: 0, len: (1usize << 32) + 5, rep: 0 })),
